@@ -59,6 +59,9 @@ TRACE_SALT_T = dict(TRACE_SALT, name="trace_salt_t", gen_args=["--mode", "salt",
 
 TOTAL_Q = R("total_q", "total_q.cfg", expect_ops=["replace_subject", "compress_subject", "add_assertion_envelope", "obs_lookup", "add_salt"])
 
+LOCKS_Q = dict(name="locks_q", kind="locks", driver="lockcheck", threads=3, calls=2, rounds=40, stress_threads=16, stress_calls=3)
+LOCKS_T = dict(name="locks_t", kind="locks", driver="lockcheck", threads=4, calls=2, rounds=300, stress_threads=16, stress_calls=4, timeout=3000)
+
 PLAN = {
     "C01": dict(
         rule="every transition TLC explores in the bounded machine (all call sequences up to the depth bound over the listed action families, 2 registers, atoms a1,a2 + known value 1, plus every clear shape of <= 5 elements as input to the obscuring calls) is executed against the real library in several concretisation rounds (atoms -> typed values of every leaf CBOR type); the digest of the result and of every element of it must equal SHA-256 evaluated from the specification's digest term. non-trivial = distinct (call, expected result) pairs whose result has >= 2 elements or is an error",
@@ -139,5 +142,11 @@ PLAN = {
     "C19": dict(
         rule="bases x multisets of <= 2 attachments (payload = any register, vendors v1,v2, conformsTo absent/c1/c2) and malformed attachment assertions of 6 kinds, types over known values and strings; all 12 (vendor, conformsTo) filter combinations in list and single-result form, payload/vendor/conformsTo of every returned attachment, types()/has_type/check_type/get_type",
         quick=[ATTACH_Q],
+    ),
+    "C20": dict(
+        rule="lock programs (Once gates, mutex acquire/release, dcbor tag-lock blips) extracted from the hooks of the current build for 11 call kinds (format, format_flat, tree_format, diagnostic_annotated, hex, register_tags, known-value / function / parameter lookups, encode, ur); TLC explores every interleaving of 3 threads x 2 calls (thorough: 4 x 2) over the distinct programs, all threads racing on first use: deadlock freedom, once-only initialisation, no lock held at return, termination under fairness; real stress runs of 2..16 racing threads in fresh processes with a 20 s watchdog, every result compared with the single-thread text, recorded lock events validated by TLC against LocksTrace",
+        quick=[LOCKS_Q],
+        thorough=[LOCKS_T],
+        assumptions=["A-tags: code run by dcbor while it holds its tag-registry lock never calls back into a bc-envelope function that takes a registry lock", "the multithreaded-feature clause (an envelope shared between threads) is exercised by the stress run only in as far as envelopes are built per thread; see DESIGN"],
     ),
 }
